@@ -257,7 +257,11 @@ class SimpleDictDocument(DictDocument):
                     if len(indexes) == 0:
                         nidx = 0
                     else:
-                        nidx = int(indexes.popleft())
+                        try:
+                            nidx = int(indexes.popleft())
+                        except ValueError:
+                            raise ValidationError(orig_k[:64],
+                                                 "%r Invalid array index.")
 
                     if ninst is None:
                         ninst = []
